@@ -592,7 +592,7 @@ func c12GenGame(c *ctx) *c12Game {
 		std()
 		g.startErr, g.note = true, "size-mismatch"
 	case k == 3: // malformed TPS
-		bad := []string{"x3/x3/x3", "x3/x3/x3 1", "x3/x3/x3 3 1", "x3/x3/x3 1 one", "x3/x3 1 1", "x3/x3/x2 1 1", "x3/x3/x3/x3 1 1", "x3/x3/3,x2 1 1", "x3/x3/1S1,x2 1 1", "garbage", "x9/x9/x9/x9/x9/x9/x9/x9/x9 1 1", "x2/x2 1 1", "x3/x3/x3  1 1"}
+		bad := []string{"x3/x3/x3", "x3/x3/x3 1", "x3/x3/x3 3 1", "x3/x3/x3 1 one", "x3/x3 1 1", "x3/x3/x2 1 1", "x3/x3/x3/x3 1 1", "x3/x3/3,x2 1 1", "x3/x3/1S1,x2 1 1", "garbage", "x9/x9/x9/x9/x9/x9/x9/x9/x9 1 1", "x2/x2 1 1", "x3/x3/x3  1 1", "x3/x3/x,,x 1 1", "x3/x3/S,x2 1 1", "x3/x3/x2,C 1 1", "x3/x3/,x3 1 1"}
 		useTPS = true
 		tpsTag.Value = bad[r.Intn(len(bad))]
 		sizeTag.Value = "3"
@@ -1056,7 +1056,7 @@ var c12Fixed = []string{
 	"{", "{}", "{a", "1. {", "[Size \"5\"]\n1. a1 {", "[Size \"5\"]\n1. a1 {x", "}", ".", "1.", "1. a1", "-.", "+1.", "99999999999999999999.",
 	"[Size \"9\"]\n1. a1", "[Size \"2\"]\n1. a1", "[Size \"0\"]", "[Size \"-3\"]", "[Size \"3\"]\n1. a1 a3 2. a2 b3 3. a3", "R-0", "1/2-1/2", "F-", "a1?", "a1*", "a1?!'", "??",
 	"[Size \"3\"][TPS \"x3/x3/x3 1 1\"] 1. a1", "[Size \"3\"]\n[TPS \"x3/x3/x3 1 1\"]\n\n1. a1 b1", "[Size \"3\"]\n[TPS \"2,x2/x3/1,x2 1 2\"]\n\n2. b1 b2 3. c1",
-	"[Size \"3\"]\n[TPS \"x3/x3/x3 1\"]\n", "[Size \"4\"]\n[TPS \"x3/x3/x3 1 1\"]\n", "[Size \"5\"]\n\n1. a1 a1", "[Size \"5\"]\n\n1. a1 b1 2. a2 2. a3 a4",
+	"[Size \"3\"]\n[TPS \"x3/x3/x3 1\"]\n", "[Size \"4\"]\n[TPS \"x3/x3/x3 1 1\"]\n", "[Size \"3\"]\n[TPS \"x3/x3/x,,x 1 1\"]\n\n1. a1", "[Size \"3\"]\n[TPS \"x3/x3/S,x2 1 1\"]\n\n1. a1", "[Size \"3\"]\n[TPS \"x3/C,x2/x3 2 1\"]\n\n1. a1", "[Size \"5\"]\n\n1. a1 a1", "[Size \"5\"]\n\n1. a1 b1 2. a2 2. a3 a4",
 	"[Size \"3\"]\n\n1. a1 b1 2. a2 b2 3. a3 b3 4. c1", "\x85[Size \"5\"]\xa01. a1", "[a b] [c d]x", "[Size \"5\"] {[Size \"6\"]} 1. a1",
 }
 
